@@ -62,6 +62,9 @@ def run(prog, rep, tier):
         rep.check("RESULT.mvn", T(s2.ret) == c.result, fwhere(f2, c.node), "the n x p draw is returned unchanged", "the draw is post-processed: %s" % fmt(T(s2.ret))[:80])
     S3, f3, clo, res, facts = factory_closure(prog, "sempler.noise.normal")
     draws = [c for c in facts if c.kind == "call" and c.callkind == "ext" and c.target == "numpy.random.normal"]
+    if not draws:
+        # a generator's / RandomState's .normal has the same slots: which stream is drawn from is C20's and C13's question, the unit of `scale` is this one's
+        draws = [c for c in facts if c.kind == "call" and c.callkind == "method" and c.target == ".normal"]
     ok = False
     if len(draws) == 1:
         b, extra = api.bind_slots(api.SLOTS["numpy.random.normal"], draws[0].args, draws[0].kwargs)
